@@ -85,7 +85,9 @@ TOL = 1e-9
 GAP = 1e-3
 
 CLASSES = tuple(zoo.SINGLE) + tuple(zoo.SINGLE_ROT) + tuple(zoo.CROSS) + tuple(zoo.CROSS_ROT) + tuple(zoo.MULTI) + ("EOFBootstrapper",)
-OPS = ("transpose", "featperm", "sampleperm", "split_ds", "split_list", "naming")
+OPS = ("transpose", "featperm", "sampleperm", "split_ds", "split_list", "naming", "itemperm")
+# itemperm: ONE item of a list input stores the (shared) sample labels in another order than the other
+# items -- the same data by label; the pieces must be aligned on their labels, not glued by position
 NAMING_KINDS = ("sf", "arb", "exotic", "userdim", "swap", "s_only", "f_only", "dimn")
 SAMPLEPERM_EXEMPT = set(zoo.ORDER_DEPENDENT) | {"EOFBootstrapper"}
 NO_NAME_PARAMS = {"multi.CCA"}
@@ -100,6 +102,8 @@ def applicable(cls, op):
     if op == "sampleperm" and cls in SAMPLEPERM_EXEMPT:
         return False
     if op == "naming" and cls in NO_NAME_PARAMS:
+        return False
+    if op == "itemperm" and cls in SAMPLEPERM_EXEMPT:
         return False
     return True
 
@@ -180,6 +184,12 @@ def _draw(rng, cls=None, op=None, sub=None, container=None, tmode=None, nrep=Non
         container = "da" if splitting else str(rng.choice(["da", "ds", "list"], p=[0.5, 0.25, 0.25]))
     if splitting:
         container = "da"
+    if "itemperm" in parts:
+        if "split_ds" in parts:
+            parts.remove("itemperm")
+            op = "combo" if len(parts) > 1 else parts[0]
+        elif not splitting:
+            container = "list"
     c = dict(cls=cls, op=op, parts=parts, container=container)
     if "naming" in parts:
         c["naming"] = sub or str(rng.choice(NAMING_KINDS))
@@ -282,6 +292,8 @@ def cases(tier, seed):
                     variants += [(None, "da", "aligned", None), (None, "ds", "mixed", None), (None, "list", "aligned", None), (None, "list", "mixed", None)]
                 if multi_field and (thorough or not rot):
                     variants += [(None, "da", "mixed", True)]  # X and Y with the two sample dimensions in different order
+            elif op == "itemperm":
+                variants += [(None, "list", None, None), (None, "list", None, True)]
             elif op == "featperm":
                 conts = (C3[1 + ci % 2],) if (rot and not thorough) else C3
                 variants += [(None, c, None, None) for c in conts]
@@ -455,6 +467,10 @@ def vary(pres, fld, parts, rng, shared):
         q["tperm"] = list(shared["tperm"])
         q["rperm"] = list(shared["rperm"])
         changed = True
+    if "itemperm" in parts and q["container"] == "list" and len(q["groups"]) > 1:
+        gi = int(rng.integers(0, len(q["groups"])))
+        q["piece_tperm"] = {str(gi): _nonid_perm(rng, fld["nt"])}
+        changed = True
     return q, changed
 
 
@@ -473,6 +489,9 @@ def present(fld, pres):
         P = A.isel(v=g)
         if len(g) == 1 and pres["squeeze"]:
             P = P.isel(v=0, drop=True)
+        ptp = (pres.get("piece_tperm") or {}).get(str(len(pieces)))
+        if ptp is not None:
+            P = P.isel(time=ptp)  # this item alone stores its samples in another order (same labels)
         pieces.append(P.transpose(*order).copy())
     if pres["container"] == "da":
         return pieces[0]
@@ -956,6 +975,10 @@ def run_case(case, obs):
         list_axes_differ |= len(set(axes)) > 1
         per_field.append(tuple(np.argsort(axes[0]).tolist()))
     obs.tag(list_sample_axes_differ=bool(list_axes_differ), fields_sample_order_differ=bool(len(set(per_field)) > 1))
+    obs.tag(
+        item_sample_order_differs=bool(any(p_.get("piece_tperm") for p_ in var_pres)),
+        two_sample_dims=bool(case["nrep"]),
+    )
     if list_axes_differ:
         obs.cell("input:list_sample_axes_differ")
     if len(set(per_field)) > 1:
@@ -1038,7 +1061,9 @@ def run_case(case, obs):
     obs.count("relation:compared")
 
     # sample permutation: the scores come back in the order in which the samples were presented
-    if "sampleperm" in parts and not case["nrep"]:
+    # (when one list item stores its samples in yet another order there is no single "presented order":
+    # aligning the items may legitimately return the labels sorted)
+    if "sampleperm" in parts and not case["nrep"] and not any(p_.get("piece_tperm") for p_ in var_pres):
         for j, sc in enumerate(fv.scores()):
             want = fields[j]["da"].coords["time"].values[np.asarray(var_pres[j]["tperm"])]
             obs.check(f"scores_order[{j}]", np.array_equal(np.asarray(sc.coords["time"].values), want), "scores are not in the order of the presented samples", tags={"symptom": "score_order"})
